@@ -30,7 +30,12 @@ MANIFEST = dict(
          "plain Python indexing reaches (C05_delete_spellings), pop returns that node's value and has the effect of delete "
          "(C05_pop_spellings; canonical path: C05_pop_hit, C05_pop_hit_recursive); pop of a path on which item access raises "
          "(and leaves the tree alone) returns the default and changes nothing (C05_pop_miss, conditional on that lookup "
-         "behaviour); a popped dict key is no longer present when keys are unique (C05_pop_not_present). "
+         "behaviour; the path is taken without a leading '?'); a popped dict key is no longer present when keys are unique "
+         "(C05_pop_not_present). The '?' spelling of lookup (fix C05-c: delete and pop strip a leading '?' as _get and "
+         "__setitem__ do): delete('?'+xp) = delete(xp) and pop('?'+xp, d) = pop(xp, d) for every tree, path, default and flag, "
+         "whole outcome (C05_qmark); hence delAt / pruneUp / the popped node for '?' + every spelling (C05_qmark_spellings), "
+         "and pop('?'+xp, d) of a path on which item access raises returns the caller's d - not the '' that d['?'+xp] gives - and "
+         "changes nothing (C05_qmark_pop_miss; the audit's witnesses: C05_qmark_ok). "
          "Sequences mixing deletes with C02/C03 writes (C05_history, the same theorem as C03_history): operations Hist.Op = "
          "write to an existing node | creation by a CStep path of the honoured grammar | delete | pop (both with and "
          "without recursively), each called with the canonical path of the node in the CURRENT state; for every finite "
@@ -56,6 +61,9 @@ MANIFEST = dict(
 )
 
 
+QMARK = 0.12   # share of delete / pop paths written with the leading '?' of lookup (fix C05-c)
+
+
 def ref_delete(ref, pos, recursively):
     par = X.get_at(ref, pos[:-1])
     del par[pos[-1]]
@@ -77,7 +85,9 @@ def gen_history(rng, tree, nops):
         if not poss or r < 0.15:
             # a path that does not resolve
             base = X.render(rng, ref, rng.choice(poss), "rel") if poss and rng.random() < 0.7 else ""
-            miss = base + rng.choice(["/zz", "[99]", "/zz/y", "[-99]"]) if base else rng.choice(["zz/y", "/zz", "zz[0]"])
+            miss = base + rng.choice(["/zz", "[99]", "/zz/y", "[-99]"]) if base else rng.choice(["zz/y", "/zz", "zz[0]", "zz"])
+            if rng.random() < QMARK:
+                miss = "?" + miss   # '?' = "do not raise for a miss": pop still answers the caller's default
             ops.append({"op": "popmiss", "xp": miss, "d": rng.choice([None, "D", 0])})
             continue
         p = rng.choice(poss)
@@ -85,6 +95,8 @@ def gen_history(rng, tree, nops):
         # as the node itself - delete and pop must accept the spelling and remove the node itself
         hid = []
         xp = X.render(rng, ref, p, hidden=0.08, hidden_at=hid)
+        if r < 0.8 and rng.random() < QMARK:
+            xp = "?" + xp   # lookup accepts '?' + path (the same node for every path that resolves): delete / pop must too
         if r < 0.45:
             rec = rng.random() < 0.5
             ops.append({"op": "del", "pos": list(p), "xp": xp, "rec": rec})
@@ -211,6 +223,10 @@ def run(ctx):
                 xp = X.render_rel(t, p)
                 for op in ({"op": "del", "rec": False}, {"op": "del", "rec": True}, {"op": "pop", "rec": True, "d": None}):
                     ex.append({"tree": t, "mode": "n0", "ops": [dict(op, pos=list(p), xp=xp)]})
+                ex.append({"tree": t, "mode": "n0", "ops": [{"op": "pop", "rec": False, "d": "D", "pos": list(p), "xp": "?" + xp}]})
+                ex.append({"tree": t, "mode": "n0", "ops": [{"op": "del", "rec": True, "pos": list(p), "xp": "?" + xp}]})
+        for miss in ("?zz", "?zz/y", "?a/zz", "?a[7]", "?b[0]/zz"):
+            ex.append({"tree": t, "mode": "n0", "ops": [{"op": "popmiss", "d": "D", "xp": miss}]})
     ctx.evaluate("history/exhaustive", ex, check_history)
     ctx.extra["exhaustive_subspace"] = "all dict-rooted trees with <= %d nodes below the root, every position, delete / delete(recursively) / pop(recursively)" % nmax
     # B: every delete/pop step, model vs implementation from the implementation's state
@@ -236,7 +252,8 @@ def run(ctx):
         o = X.convert(c["tree"], c["mode"])
         poss = [p for p, _ in X.positions(c["tree"]) if p]
         base = X.render(rng, c["tree"], rng.choice(poss), "rel") if poss else "q"
-        dsteps.append({"tree_enc": enc_val(o), "xp": base + rng.choice(["/zz", "[99]", "/zz/y"]), "rec": rng.random() < 0.5})
+        dsteps.append({"tree_enc": enc_val(o), "xp": ("?" if rng.random() < QMARK else "") + base + rng.choice(["/zz", "[99]", "/zz/y"]),
+                       "rec": rng.random() < 0.5})
     ctx.correspond(
         "xp.del",
         dsteps,
@@ -257,6 +274,7 @@ def run(ctx):
     )
     ctx.samples = [{"tree": c["tree"], "ops": c["ops"][:3]} for c in cases[:3]]
     ctx.extra["assumptions"] = [
-        "trees have plain-name keys; paths address nodes of the current state in a spelling lookup accepts",
+        "trees have plain-name keys; paths address nodes of the current state in a spelling lookup accepts "
+        "(12 % of the delete / pop paths carry the leading '?' of lookup)",
         "missing paths are derived from real paths (unknown key, index out of range, step below a leaf)",
     ]
